@@ -28,6 +28,10 @@ _ALIASES = [
     ("array::", "core::array::", "std::array::"),
     ("num::", "core::num::", "std::num::"),
     ("char::", "core::char::", "std::char::"),
+    ("iter::", "core::iter::", "std::iter::"),
+    ("ops::", "core::ops::", "std::ops::"),
+    ("fmt::", "core::fmt::", "std::fmt::", "alloc::fmt::"),
+    ("convert::", "core::convert::", "std::convert::"),
 ]
 
 
@@ -38,6 +42,8 @@ def spellings(n):
     out = [n]
     short = _INNER.sub("", n)             # std paths nested in `<..>` (`<std::vec::Vec<T> as Extend<T>>::extend`)
     if short != n: out.append(short)
+    if re.fullmatch(r"\w+", n):            # a free function trimmed to its bare name (`min`, `swap`, `once`)
+        out += [f"std::cmp::{n}", f"std::mem::{n}", f"std::iter::{n}"]
     for group in _ALIASES:
         for g in group:
             if n.startswith(g):
